@@ -13,7 +13,7 @@ import (
 
 func (x *Exec) realFn(name string, args ...Term) Term {
 	if x.mode == "U" {
-		return App(SFl, "u_"+name, args...)
+		return App(SFl, name+"_u", args...) // the U-mode rendering of the spec-level function of that name
 	}
 	return App(SReal, name, args...)
 }
@@ -44,7 +44,7 @@ func (x *Exec) callExternal(st *State, call *ast.CallExpr, callee *types.Func, p
 	case "math.Abs":
 		a := f64(args()[0])
 		if x.mode == "U" {
-			return []Value{sc(App(SFl, "u_abs", a))}
+			return []Value{sc(App(SFl, "absR_u", a))}
 		}
 		return []Value{sc(App(SReal, "absR", a))}
 	case "math.Min":
